@@ -830,4 +830,32 @@ Section LexWf.
     | TBox1 _ a => term_ok_readme a
     | TBox2 _ a b => term_ok_readme a && term_ok_readme b
     end.
+
+  (* sentences and tasks: punctuation of the lexicon; stamp empty, a tense, or the fixed form with a
+     body of the library's stamp characters [0-9+-]; truth / budget entries non-empty digit-and-dot
+     strings (any number of them) *)
+  Definition num_char (c : N) : bool := is_ascii_digit c || (c =? 46).
+  Definition num_ok (s : str) : bool := match s with [] => false | _ => forallb num_char s end.
+  Definition stamp_body_char (c : N) : bool := is_ascii_digit c || (c =? 43) || (c =? 45).
+  Definition stamp_fixed_ok (s : str) : bool :=
+    let p := fst (lx_fixed X) in
+    let q := snd (lx_fixed X) in
+    starts p s &&
+    (let r := drop (length p) s in ends q r && forallb stamp_body_char (take (length r - length q) r)).
+  Definition stamp_ok (s : str) : bool := str_eqb s [] || str_mem s (lx_tenses X) || stamp_fixed_ok s.
+  Definition lsentence_wf (s : lsentence) : bool :=
+    lterm_wf (ls_term s) && str_mem (ls_punct s) (lx_punctuations X) && stamp_ok (ls_stamp s) &&
+    forallb num_ok (ls_truth s).
+  Definition ltask_wf (k : ltask) : bool := forallb num_ok (lt_budget k) && lsentence_wf (lt_sentence k).
+  Definition lnarsese_wf (v : lnarsese) : bool :=
+    match v with
+    | NTerm t => lterm_wf t
+    | NSentence s => lsentence_wf s
+    | NTask k => ltask_wf k
+    end.
 End LexWf.
+
+(* an enum value is in the domain of C11 when its term is (stamps are arbitrary; the numbers are
+   printed by f64's Display, assumed to yield digit-and-dot strings for values in [0,1]) *)
+Definition narsese_ok_readme {F} (ucls : uclass -> N -> bool) (v : narsese F) : bool :=
+  term_ok_readme ucls (match v with NTerm t => t | NSentence s => s_term s | NTask k => s_term (fst k) end).
